@@ -52,7 +52,7 @@ check("C02", "model_checking",
       "bounded-exhaustive input enumeration with child-process isolation against a reference parser",
       "DESIGN.md §5 C02", "mc")
 check("C03", "model_checking",
-      "All pipelines over a 52-letter request alphabet (every handler kind incl. blocking/middleware-wrapped/registry/struct/custom-erased, every body-format code with well-formed and malformed bodies, bad versions, query formats, non-UTF-8 and unknown paths, notify twins): every letter, every ordered pair, triples over a sub-alphabet, each letter x64 (+ pairs around 62 echoes in thorough), each written in one burst on a fresh connection of four real servers (blocking TCP, async TCP, async over an in-memory stream, WebSocket with inline and off-reader routes). Everything received until the server closes is matched by id against a reference model (exactly one response per request, none for notifies, specified error codes, query echo, arrival order of inline responses, same fields on every transport) and handler/middleware invocation counters are compared per pipeline. One additional free-running row (WebSocket, 4 worker threads, outbound queue of 1) is reported as non-deciding.",
+      "All pipelines over a 52-letter request alphabet (every handler kind incl. blocking/middleware-wrapped/registry/struct/custom-erased, every body-format code with well-formed and malformed bodies, bad versions, query formats, non-UTF-8 and unknown paths, notify twins): every letter, every ordered pair, triples over a sub-alphabet, each letter x64 (+ pairs around 62 echoes in thorough), each written in one burst on a fresh connection of four real servers (blocking TCP, async TCP, async over an in-memory stream, WebSocket with inline and off-reader routes), each of them once with a router-wide counting middleware (copying dispatch) and once with no middleware (zero-copy dispatch); thorough: triples over all letters and quadruples over the sub-alphabet. Everything received until the server closes is matched by id against a reference model (exactly one response per request, none for notifies, specified error codes, query echo, arrival order of inline responses, same fields on every transport) and handler/middleware invocation counters are compared per pipeline. A separate block decides requests arriving at the WebSocket off-reader cap (answered by the reader itself): caps 1,2,3 x four blocking route kinds x call / notify / burst: exactly one response with the request's id and query, none for notifies. One additional free-running row (WebSocket, 4 worker threads, outbound queue of 1) is reported as non-deciding.",
       "Handlers are deterministic; TCP rows use real loopback sockets with a 10 s watchdog on predicted events only. Sequences of more than three distinct letters only in the repeated/embedded forms.",
       "bounded-exhaustive enumeration of request pipelines against running endpoints with a reference model",
       "DESIGN.md §5 C03", "mc")
@@ -62,7 +62,7 @@ check("C07", "model_checking",
       "bounded-exhaustive input/configuration enumeration with differential and reference-model oracles",
       "DESIGN.md §5 C07", "mc")
 check("C10", "fault_enumeration",
-      "Three parts, no source hooks: (1) every in-process fault (producer failure after every byte, connection cut after/on every response, error to open, missing last, rejecting/tampered verifier, trailer longer than or equal to the stream, unpublishable destination) x 9 pullers x compression x destination absent/pre-existing against the real SVS engine, plus fault-free pulls that start over the stale temp file a killed pull leaves (six length classes); (2) the pulling process is SIGKILLed (strace inject) at every file-system syscall and at every receive of the recorded history; (3) for every prefix of the recorded write/fsync/rename history and every subset of unsynced writes dropped, a file-system model computes the destination: it must be the old or the complete new content.",
+      "Three parts, no source hooks: (1) every in-process fault (producer failure after every byte, connection cut after/on every response, error to open, missing last, rejecting/tampered verifier, trailer longer than or equal to the stream, unpublishable destination) x 9 pullers x compression x destination absent/pre-existing against the real SVS engine, plus fault-free pulls that start over the stale temp file a killed pull leaves (six length classes); (2) the pulling process is SIGKILLed (strace inject) at every file-system syscall and at every receive of the recorded history; (3) for every prefix of the recorded write/fsync/rename history and every subset of unsynced writes dropped, a file-system model computes the destination: it must be the old or the complete new content; (4) slow consumers, in process: the caller-supplied digest, verifier or consume closure parks on a gate (first / middle / last call) while the pull fails (cut, next error, producer failure) or completes, the gate is held for 7 s, the directory is sampled at the moment the pull returns and after every consumer finished, retries go to the same destination (AsyncClient, WebSocketClient over in-memory streams; blocking Client over TCP).",
       "POSIX rename atomicity; directory fsync not demanded; kill points are syscall entries; transport faults are frame-granular.",
       "exhaustive fault and crash-point enumeration (in-process faults, kill at every syscall, crash-state model over the traced history)",
       "DESIGN.md §5 C10", "mc")
@@ -77,7 +77,7 @@ check("C16", "model_checking",
       "explicit-state enumeration of event sequences replayed on the real server against a reference automaton",
       "DESIGN.md §5 C16", "mc")
 check("C17", "model_checking",
-      "Every (limit, total size in limit-2..limit+2 plus 48, limit/2, 2*limit, placement of the excess in query/body/both) case on each of thirteen outbound paths (inline and off-reader responses, the same two with handler-returned error responses, a relayed application-error response, handler-pushed notify, four registry broadcasts, proxy-forwarded response, WebSocket client call and notify) over in-memory streams on a paused clock; every binary message seen by the raw peer must be within the limit, unchanged when it fits, replaced/dropped+reported/refused locally otherwise, and the connection must serve a following echo.",
+      "Every (limit, total size in limit-2..limit+2 plus 48, limit/2, 2*limit, placement of the excess in query/body/both) case on each of thirteen outbound paths (inline and off-reader responses, the same two with handler-returned error responses, a relayed application-error response, handler-pushed notify, four registry broadcasts, proxy-forwarded response, WebSocket client call and notify) over in-memory streams on a paused clock, the notification paths also with the same notification 2 and 3 times in a row (each delivered, or dropped with one report each); every binary message seen by the raw peer must be within the limit, unchanged when it fits, replaced/dropped+reported/refused locally otherwise, and the connection must serve a following echo.",
       "The writer's shutdown-drain call site of the guard is not scripted.",
       "bounded-exhaustive input/configuration enumeration against running endpoints",
       "DESIGN.md §5 C17", "mc")
@@ -94,7 +94,7 @@ check("C04", "model_checking",
       "exhaustive enumeration of peer scripts against the running clients (mc) + loom stateless model checking of the blocking client",
       "DESIGN.md §5 C04", "mc+lm")
 check("C05", "fault_enumeration",
-      "Two engines. mc: forced-stall scripts with exact write credit on in-memory streams - concurrent calls + notify on AsyncClient / WebSocketClient with payloads straddling the 8 KiB writer buffer and the peer accepting exactly k bytes; a large call abandoned after exactly k accepted bytes followed by another call; AsyncServer with a write timeout whose response stalls past the deadline, and pipelined responses stalled then released with per-write byte limits around the 8 KiB staging buffer (a peer buffer above 256 MiB is a runaway writer); a call abandoned while another is queued on the writer lock; WebSocket server with concurrent off-reader responses and pushed notifies against a stalled peer; blocking Server and blocking Client over loopback TCP with 24 MiB frames and a 300 ms write timeout. lm: blocking client under loom with 7..24-byte write quotas and a 1-byte pipe. Everything the peer receives must parse into whole frames and nothing may follow an interrupted write.",
+      "Two engines. mc: forced-stall scripts with exact write credit on in-memory streams - concurrent calls + notify on AsyncClient / WebSocketClient with payloads straddling the 8 KiB writer buffer and the peer accepting exactly k bytes; a large call abandoned after exactly k accepted bytes followed by another call and then by a notify / forwarded notify / batch; 8 and 32 concurrent writers under stalls and short writes; AsyncServer with a write timeout whose response stalls past the deadline, and pipelined responses stalled then released with per-write byte limits around the 8 KiB staging buffer (a peer buffer above 256 MiB is a runaway writer); a call abandoned while another is queued on the writer lock; WebSocket server with concurrent off-reader responses and pushed notifies against a stalled peer; blocking Server and blocking Client over loopback TCP with 24 MiB frames and a 300 ms write timeout (the server's response also read by a paced peer, so that bytes written after the interrupted response are seen and judged by content; the client also with sequences of small / buffer-sized frames until one is interrupted, another while stalled, more after the peer resumes). lm: blocking client under loom with 7..24-byte write quotas and a 1-byte pipe. Everything the peer receives must parse into whole frames and nothing may follow an interrupted write.",
       "TCP rows depend on the kernel filling its socket buffers with 24 MiB (a counter reports that it did); 2-4 writers under forced stalls, not 32 free-running ones.",
       "exhaustive enumeration of stall offsets / interruption points against running endpoints (mc) + loom model checking of the blocking client's writer",
       "DESIGN.md §5 C05", "mc+lm")
@@ -104,7 +104,7 @@ check("C06", "fault_enumeration",
       "exhaustive fault-script enumeration against the running clients (mc) + loom model checking of the blocking client",
       "DESIGN.md §5 C06", "mc+lm")
 check("C09", "model_checking",
-      "Real SVS handlers (/_svs/open|next|cancel, real producer thread and bounded channel) driven session by session: chunk sizes 1..8 (+16, 4096, 1 MiB), every payload length 0..3c+1, channel depths 0,1,2,4,8, both compressions, all five producer kinds, every composition of write sizes for n <= 10, failure and panic injection at every byte position, every cancel point, unknown ids, and gate disciplines forcing producer-first / consumer-first at each rendezvous; plus the blocking, async and WebSocket pullers over real transports on a boundary subset.",
+      "Real SVS handlers (/_svs/open|next|cancel, real producer thread and bounded channel) driven session by session: chunk sizes 1..8 (+16, 4096, 1 MiB), every payload length 0..3c+1, channel depths 0,1,2,4,8, both compressions, all five producer kinds, every composition of write sizes for n <= 10, failure and panic injection at every byte position, every cancel point, unknown ids, and gate disciplines forcing producer-first / consumer-first at each rendezvous; plus the blocking, async and WebSocket pullers over real transports on a boundary subset. Several streams on ONE router: every interleaving of the next calls of 2 streams (<= 3 responses each) and of 3 streams (<= 2 each; covering subset in quick), one extra event (cancel in request / notify form, next past the end, unknown id, late open) at every position, sequential reuse of a router after a finished / cancelled / failed stream, every order of the 1-byte writes of concurrent writer sessions; several pulls through one connection on all three transports, sequentially (every puller pair, abandoned / cancelled / failing first streams) and, for the async clients, concurrently.",
       "zstd output is judged by decompression; large chunk sizes use boundary lengths only.",
       "bounded-exhaustive enumeration of sessions/configurations against the real handlers with a byte-exact oracle",
       "DESIGN.md §5 C09", "mc")
@@ -115,7 +115,7 @@ check("C14", "model_checking",
       "DESIGN.md §5 C14", "mc+lm")
 
 check("C19", "fault_enumeration",
-      "A scripted fake node (real TCP listener owned by the harness, with a connect(2) seam so that a refused attempt is counted exactly) plays every outcome sequence of length <= max_attempts+2 over the seven-outcome alphabet (refused, accepted-then-closed, closed-while-idle, silent-until-timeout, malformed reply, application error, success) for max_attempts 1,2 (thorough 1,2,3), followed by a healthy phase of two calls, against Fleet and AsyncFleet (call_json and call_message); every error-code class (1..9, 10, 4095, 4096, 4097, u32::MAX) as the application-error reply on every script of length <= 2 that contains one; a connection that swallowed a request stays silent afterwards; all 4^4 tag-subset assignments over 2 tags x every requested subset for broadcasts. Oracle as the property states it: attempts <= max, every retry preceded by a transport failure, nothing after a reply, result = that reply or the last transport error, never wedged, broadcast addresses exactly the matching nodes.",
+      "A scripted fake node (real TCP listener owned by the harness, with a connect(2) seam so that a refused attempt is counted exactly) plays every outcome sequence of length <= max_attempts+2 over the seven-outcome alphabet (refused, accepted-then-closed, closed-while-idle, silent-until-timeout, malformed reply, application error, success) for max_attempts 1,2 (thorough 1,2,3), followed by a healthy phase of two calls, against Fleet and AsyncFleet (call_json and call_message); every error-code class (1..9, 10, 4095, 4096, 4097, u32::MAX) as the application-error reply on every script of length <= 2 that contains one; a connection that swallowed a request stays silent afterwards; all 4^4 tag-subset assignments over 2 tags x every requested subset for broadcasts; 27 prefixes that decide how the cached connection came to be (earlier call, connect_all, health_check, reconnect_disconnected after each failure kind, disconnect_all, the node dead during the maintenance call) x outcome scripts x recovery operation; add_node / remove_node sequences (incl. re-adding a name with other tags) from three initial node sets x tag subsets x node health for broadcast_json, map_reduce_json and filter_nodes. Oracle as the property states it: attempts <= max, every retry preceded by a transport failure, nothing after a reply, result = that reply or the last transport error, never wedged, broadcast addresses exactly the matching nodes.",
       "Real loopback TCP and a 150 ms node timeout: verdicts depend only on counts and results, every step waits for a positive event under a heartbeat watchdog, and a violation must reproduce from its recorded case. A malformed reply may be classified either way.",
       "exhaustive fault-sequence enumeration against the running fleets with a scripted node",
       "DESIGN.md §5 C19", "mc")
